@@ -99,11 +99,30 @@ func runC03(c *Ctx, ev *Evidence) ([]Violation, error) {
 			return r2.Res.Status == smt.Sat
 		}
 		if len(raws) == 1 {
+			// every candidate that makes the counterexample concrete is replayed until
+			// one reproduces (a few per obligation)
+			replays := 0
 			for _, cand := range urlCandidates {
-				if try([]string{cand}) {
-					found = true
+				if !try([]string{cand}) {
+					continue
+				}
+				found = true
+				replays++
+				v, reproduced, err := replayC03x(c, ev, r2, sig)
+				if err != nil {
+					return nil, err
+				}
+				if reproduced {
+					seen[sig] = true
+					return v, nil
+				}
+				if replays >= 4 {
 					break
 				}
+			}
+			if found {
+				ev.Inconclusive(fmt.Sprintf("C03: counterexample at %s: %d concrete instance(s) did not reproduce natively", sig, replays))
+				return nil, nil
 			}
 		} else {
 		outer:
@@ -221,6 +240,17 @@ func runC03(c *Ctx, ev *Evidence) ([]Violation, error) {
 }
 
 func replayC03(c *Ctx, ev *Evidence, r UnitResult, sig string) (*Violation, error) {
+	v, reproduced, err := replayC03x(c, ev, r, sig)
+	if err == nil && !reproduced {
+		ev.Inconclusive(fmt.Sprintf("C03: model at %s did not reproduce natively", sig))
+	}
+	return v, err
+}
+
+// c03Rewritten is what the replay's src rewriter turns every URL into.
+const c03Rewritten = "https://proxy.example/r"
+
+func replayC03x(c *Ctx, ev *Evidence, r UnitResult, sig string) (*Violation, bool, error) {
 	pos := int(r.Notes["pos"].I)
 	el, key := urlPositions[pos][0], urlPositions[pos][1]
 	in := attrsFromNotes(r.Notes, "in")
@@ -279,10 +309,15 @@ func replayC03(c *Ctx, ev *Evidence, r UnitResult, sig string) (*Violation, erro
 		}
 	}
 	pol = append(pol, NativeReq{"op": "AllowAttrs", "attrs": []string{key}, "scope": "globally"})
+	hasRW := choice("p.hasRewriter") == 1
+	if hasRW {
+		// a concrete rewriter: every URL becomes the same proxy URL
+		pol = append(pol, NativeReq{"op": "RewriteSrc", "default": c03Rewritten})
+	}
 	req := NativeReq{"op": "sanitizeAttrs", "policy": pol, "element": el, "attrs": attrsToJSON(in)}
 	nres, nerr := RunNative(c.Repo, c.VerifDir, []NativeReq{req}, "")
 	if nerr != nil {
-		return nil, nerr
+		return nil, false, nerr
 	}
 	got := decodeAttrs(nres[0]["attrs"])
 	why := ""
@@ -312,7 +347,14 @@ func replayC03(c *Ctx, ev *Evidence, r UnitResult, sig string) (*Violation, erro
 				continue
 			}
 			acc, norm, rs := accept(a[1])
-			if acc && (norm == o[1] || choice("p.hasRewriter") == 1 || strings.HasPrefix(strings.TrimSpace(a[1]), "data:")) {
+			if hasRW && key == "src" {
+				// with a rewriter installed every surviving src is the rewriter's result
+				if acc && o[1] == c03Rewritten {
+					ok = true
+				} else if acc && reason == "" {
+					reason = "the src rewriter was not applied to " + norm
+				}
+			} else if acc && (norm == o[1] || strings.HasPrefix(strings.TrimSpace(a[1]), "data:")) {
 				ok = true
 			}
 			if !acc && reason == "" {
@@ -325,9 +367,9 @@ func replayC03(c *Ctx, ev *Evidence, r UnitResult, sig string) (*Violation, erro
 	}
 	ev.Sample(map[string]interface{}{"query": "C03 counterexample", "position": el + "[" + key + "]", "raw": raw, "policy": pol, "model_out": want, "native_out": got, "native_oracle": why})
 	if why == "" {
-		ev.Inconclusive(fmt.Sprintf("C03: model at %s did not reproduce natively: raw=%q model-out=%q native-out=%q", sig, raw, want, got))
-		return nil, nil
+		c.Log("C03: model at %s did not reproduce natively: raw=%q model-out=%q native-out=%q", sig, raw, want, got)
+		return nil, false, nil
 	}
 	ev.AddReplayed(1)
-	return &Violation{Sig: sig, Detail: fmt.Sprintf("<%s %s=%q> out=%q allowlist=%v relative=%v: %s", el, key, raw, got, schemes, r.Notes["p.allowRelative"].B, why), Replay: []NativeReq{req}}, nil
+	return &Violation{Sig: sig, Detail: fmt.Sprintf("<%s %s=%q> out=%q allowlist=%v relative=%v: %s", el, key, raw, got, schemes, r.Notes["p.allowRelative"].B, why), Replay: []NativeReq{req}}, true, nil
 }
